@@ -656,6 +656,21 @@ def check_geometry(case):
     coords = {"source_position": src, "sample_position": smp, "position": pos}
     cont = make_container(coords, ops, case["container"])
     _compare_all(run_components(cont), ref, unit, "scippneutron.<name>(" + case["container"] + ")")
+    # the same beamline with the pixel dimension *named* 'position' (so that the positions are a
+    # dimension-coordinate): the accessors must still label their results with that dimension
+    # (transform_coords renames a dimension whose dimension-coordinate is consumed unless told not to)
+    if "spectrum" in cont.dims and "position" not in cont.dims:
+        renamed = cont.rename_dims({"spectrum": "position"})
+        with attributed("scippneutron.<name>() on data whose pixel dimension is called 'position'"):
+            got_r = run_components(renamed)
+        back = {}
+        for q, v in got_r.items():
+            if "spectrum" in v.dims or any(d not in ("position", "tube") for d in v.dims):
+                raise Violation("dims", f"{q} [scippneutron.<name>() with the pixel dimension called 'position']: "
+                                        f"result dims {v.dims}")
+            back[q] = v.rename_dims({"position": "spectrum"}) if "position" in v.dims else v
+        _compare_all(back, ref, unit, "scippneutron.<name>(" + case["container"] + ", pixel dim named 'position')")
+        labs.append("dim-named-position")
     # the three position accessors hand back exactly what was supplied
     import scipp as sc
     import scippneutron as scn
